@@ -2,11 +2,19 @@
 
 spec/codec/Precert.tla (abstract TBSCertificate = opaque field tags + extension list; RemoveExt,
 BuildPrecertTBS, Final, the two routes' entries, SCT list framing; laws ExactlyOne, OthersUntouched,
-BuildTouchesOnly, Commutes, SameEntry, SCTListRoundTrip), MCPrecert.tla (case enumeration, laws as
-invariants, JSON export).  Binding: every case is DER-encoded by the harness' own builder (cryptobyte),
-signed with real keys and replayed into x509.BuildPrecertTBS / RemoveCTPoison / RemoveSCTList,
-ct.MerkleTreeLeafFromChain / FromRawChain / ForEmbeddedSCT, ctutil.VerifySCT / LeafHash, x509util SCT list
-helpers and submission.ASN1MarshalSCTs; expected bytes = the builder applied to the model's expected TBS.
+BuildTouchesOnly, Commutes, SameEntry, SCTListRoundTrip; the DER primitives an implementation that re-encodes
+the TBSCertificate writes afresh - INTEGER contents octets by value, definite lengths, object identifier
+subidentifiers - with their round-trip / minimality laws; SCTs as [log, over, form] with the clause
+TrailingOctetsIgnored, the forms that are not a signature value and the RFC 6962 2.1.4 key policy: SctFormLaw),
+MCPrecert.tla (case enumeration: layouts x criticality x issuer modes x field encodings - serial numbers by value
+at the boundaries of the INTEGER encoding, both signs, 1/2/3/20/21 octets - x unknown-extension identifiers /
+value lengths at the boundaries of their encodings x SCT kinds = log key / hash x signature form x signed entry;
+laws as invariants, the model's verdict on every SCT, JSON export of cases and of the DER table).
+Binding: every case is DER-encoded by the harness' own builder (cryptobyte), signed with real keys and replayed
+into x509.BuildPrecertTBS / RemoveCTPoison / RemoveSCTList, ct.MerkleTreeLeafFromChain / FromRawChain /
+ForEmbeddedSCT, ctutil.VerifySCT / VerifySCTWithVerifier / LeafHash, x509util SCT list helpers and
+submission.ASN1MarshalSCTs; expected bytes = the builder applied to the model's expected TBS; expected SCT
+verdicts = the model's; the specification's serial / length / subidentifier octets are compared with the builder's.
 """
 import copy
 import json
@@ -16,8 +24,9 @@ from vlib import Infra
 LEVEL = "model_checking"
 
 ASSUME = [
-    "SHA-256 collision resistance and signature unforgeability (SCTs are signed with real P-256 / RSA-2048 log keys "
-    "over the independently encoded RFC 6962 3.2 signature input)",
+    "SHA-256 collision resistance and signature unforgeability (SCTs are signed with real P-256 / P-384 / P-521 / "
+    "RSA-2048 / RSA-3072 log keys under SHA-256 / SHA-384 / SHA-512 over the independently encoded RFC 6962 3.2 "
+    "signature input)",
     "trusted base of the expected bytes: golang.org/x/crypto/cryptobyte and the harness' own DER builder / RFC 6962 "
     "encoders (harness/c03/builder.go, harness/ref); TLA+ contributes the laws, the case space and the expected "
     "abstract result",
@@ -25,12 +34,18 @@ ASSUME = [
     "extension lists of length <= 4 (quick) / 5 (thorough) over 8 extension kinds, at most one AKI; AKI forms: keyIdentifier only, keyIdentifier + authorityCertIssuer + "
     "authorityCertSerialNumber, issuer + serial without keyIdentifier (pre-issuer), absent",
     "named clauses recording the unchanged code where RFC 6962 is silent: EmptyExtensionsKept, AkiDropped, "
-    "AkiAppended, AkiAbsent",
+    "AkiAppended, AkiAbsent; TrailingOctetsIgnored (octets after a complete DER ECDSA value are not part of the "
+    "signature: the wording of property C05) and the key policy of RFC 6962 2.1.4 (a verifier for another key only "
+    "under the caller's opt-in) are taken over from C05",
+    "serial numbers: 22 values at the boundaries of the two's complement encoding (both signs; 1, 2, 3, 20, 21 "
+    "octets); unknown extensions with identifier arcs at the boundaries of the base-128 subidentifier (1..5 octets, "
+    "joint first subidentifier 2.999) and values of 0..65536 octets at the boundaries of the length octets",
 ]
 
 
 def corrupt(cases):
-    """Four corrupted expectations (the harness must flag each): order, AKI content (twice), verdict."""
+    """Seven corrupted expectations (the harness must flag each): order, AKI content (twice), verdict, SCT verdicts
+    (twice), serial number."""
     out = []
     for c in cases:
         if c["build"]["k"] == "tbs" and len(c["build"]["exts"]) >= 2 and c["c"]["mode"] == "direct" \
@@ -68,7 +83,31 @@ def corrupt(cases):
             del x["rmpoison"]["exts"][i]      # as if the first of two poisons were to be removed
             out.append(x)
             break
-    if len(out) != 4:
+    # the SCT dimension: as if octets after a DER ECDSA value made the signature invalid (embedded route), and as if
+    # a value with content after s inside the SEQUENCE were a signature (precertificate route)
+    for c in cases:
+        idx = [i for i, k in enumerate(c["c"]["scts"]) if k["form"].startswith("trail") and k["over"] == "this"
+               and c["sctemb"][i]["optin"]]
+        if idx and c["embedded"]["k"] == "entry":
+            x = copy.deepcopy(c)
+            x["sctemb"][idx[0]] = {"plain": False, "optin": False}
+            out.append(x)
+            break
+    for c in cases:
+        idx = [i for i, k in enumerate(c["c"]["scts"]) if k["form"] == "inner" and k["over"] == "this"]
+        if idx and c["chain"]["k"] == "entry":
+            x = copy.deepcopy(c)
+            x["sctchain"][idx[0]] = {"plain": True, "optin": True}
+            out.append(x)
+            break
+    # the serial dimension: as if -128 were to come out as ff 80 (the expected TBS carries another serial number)
+    for c in cases:
+        if c["c"]["enc"]["serial"] == "m128" and c["build"]["k"] == "tbs" and c["c"]["mode"] == "direct":
+            x = copy.deepcopy(c)
+            x["build"]["serial"] = "m127"
+            out.append(x)
+            break
+    if len(out) != 7:
         raise Infra("could not build the canary cases")
     return out
 
@@ -88,8 +127,12 @@ def run(ctx, replay=None):
         raise Infra("TLC exported %d cases for %d states" % (len(cases), r.distinct))
     ctx.exhaustive = ("all %d cases of MCPrecert (%s) checked against the laws by TLC and replayed into the code"
                       % (len(cases), ctx.pick("MCPrecert.cfg", "MCPrecertFull.cfg")))
+    der = r.records.get("DER", [])
+    if len(der) != 1:
+        raise Infra("TLC exported %d DER tables" % len(der))
     path = ctx.write_ndjson("cases.ndjson", cases)
+    derpath = ctx.write_ndjson("der.ndjson", der)
     canary = ctx.write_ndjson("canary.ndjson", corrupt(cases))
     # 2. replay into the real code (field tags of the default-encoding cases are re-materialized at random per seed)
-    ctx.go_test("c03", run="TestReplay$", env={"VERIF_CASES": path, "VERIF_CANARY": canary,
+    ctx.go_test("c03", run="TestReplay$", env={"VERIF_CASES": path, "VERIF_CANARY": canary, "VERIF_DER": derpath,
                                                "VERIF_ROUNDS": ctx.pick(1, 3)}, timeout=2400)
